@@ -117,6 +117,8 @@ class NightExec:
             prof.update(copy.deepcopy(op["override"]))
         if op.get("feed_as_lists"):
             prof["feed_as_lists"] = True
+        if op.get("arrival"):
+            prof["arrival"] = dict(op["arrival"])
         if op.get("fresh_client") or self.client is None:
             from elexmodel.client import ModelClient
 
